@@ -50,6 +50,7 @@ func setTombstone(shardPath string, repoID uint32, tombstone bool) error {
 	err = os.Rename(tempPath, finalPath)
 	if err != nil {
 		os.Remove(tempPath)
+		return err
 	}
 
 	return nil
